@@ -54,6 +54,34 @@ def pixel (p w : Nat) (row : List Int) (start : Nat) (ks : List Int) : List Int 
   let r2 := loop2 (w - 2) row r4.1 r4.2.1 r4.2.2
   ((loop1 row r2.1 r2.2.1 r2.2.2).map fun v => packus8 (packs16 (v / 2 ^ p))).take 3
 
+/-! ### `horiz_convolution_four_rows` of the same file, one of its four rows: the same loop guards and loads, the masks
+    `sh_lo`, `sh_hi`; coefficient pairs are cloned with `mm_load_and_clone_i16x2` instead of being shuffled -/
+
+def step4R (s row : List Int) (x : Nat) (k0 k1 k2 k3 : Int) : List Int :=
+  let source := load row x 16
+  let s := add32 s (madd (pshufb source u8x3_sse4_four_sh_lo) (clone4 (kBytes [k0, k1])))
+  add32 s (madd (pshufb source u8x3_sse4_four_sh_hi) (clone4 (kBytes [k2, k3])))
+
+def step2R (s row : List Int) (x : Nat) (k0 k1 : Int) : List Int :=
+  add32 s (madd (pshufb (load row x 8) u8x3_sse4_four_sh_lo) (clone4 (kBytes [k0, k1])))
+
+def loop4R (maxX : Nat) (row : List Int) : List Int → Nat → List Int → List Int × Nat × List Int
+  | k0 :: k1 :: k2 :: k3 :: rest, x, s =>
+    if x < maxX then loop4R maxX row rest (x + 4) (step4R s row x k0 k1 k2 k3) else (k0 :: k1 :: k2 :: k3 :: rest, x, s)
+  | ks, x, s => (ks, x, s)
+
+def loop2R (maxX : Nat) (row : List Int) : List Int → Nat → List Int → List Int × Nat × List Int
+  | k0 :: k1 :: rest, x, s =>
+    if x < maxX then loop2R maxX row rest (x + 2) (step2R s row x k0 k1) else (k0 :: k1 :: rest, x, s)
+  | ks, x, s => (ks, x, s)
+
+def pixelR (p w : Nat) (row : List Int) (start : Nat) (ks : List Int) : List Int :=
+  let i := wrap32 (2 ^ (p - 1))
+  let r4 := loop4R (w - 5) row ks start [i, i, i, i]
+  let r2 := loop2R (w - 2) row r4.1 r4.2.1 r4.2.2
+  ((loop1 row r2.1 r2.2.1 r2.2.2).map fun v => packus8 (packs16 (v / 2 ^ p))).take 3
+
+
 /-- what the portable kernel accumulates for channel `c` -/
 def dotC3 (row : List Int) (c : Nat) : List Int → Nat → Int
   | [], _ => 0
